@@ -67,7 +67,8 @@ def plan(tier, seed):
 def floors(tier):
     return {"distinct_nontrivial": 500, "cls:nested": 300, "cls:flat": 1000, "cls:body:or": 500, "cls:body:not": 100,
             "cls:zero_solutions": 100, "cls:positional": 100, "cls:nvars=2": 300, "cls:nvars=3": 300,
-            "cls:caching_off": 300, "instances_checked": 5000, "cls:f2:const": 100, "cls:f2:call": 50, "cls:special:flatten": 150, "cls:special:preused_as_condition": 150}
+            "cls:caching_off": 300, "instances_checked": 5000, "cls:f2:const": 100, "cls:f2:call": 50, "cls:special:flatten": 150, "cls:special:preused_as_condition": 150,
+            "cls:rule_variable_with_empty_domain": 100}
 
 
 def gen_case(rng):
@@ -97,7 +98,8 @@ def gen_case(rng):
     nested = rng.random() < 0.3 and special is None
     n0 = len(world[kinds[0]])
     tags = [[rng.randrange(n0), rng.randint(1, 3)] for _ in range(rng.randint(0, n0 + 2))] if nested else []
-    return {"world": world, "kinds": kinds, "cond": cond, "f2": f2, "nested": nested, "tags": tags,
+    empty_domain = rng.randrange(nv) if (rng.random() < 0.05 and special is None) else None
+    return {"world": world, "kinds": kinds, "cond": cond, "f2": f2, "nested": nested, "tags": tags, "empty_domain": empty_domain,
             "nested_how": rng.choice(["from", "registry"]), "positional": rng.random() < 0.15, "caching": rng.random() < 0.7,
             "special": special}
 
@@ -116,9 +118,17 @@ def make_tags(case, world):
     return [Tag(o=objs[i], n=n) for i, n in case.get("tags", [])]
 
 
+def _doms(case, world):
+    doms = H.domains(world, case["kinds"])
+    if case.get("empty_domain") is not None:
+        # a rule variable whose given domain is empty (instances of its type exist elsewhere): no assignment, no instance
+        doms[case["empty_domain"]] = []
+    return doms
+
+
 def expected(case, world, tags=()):
     m = H.labels_of(world)
-    doms = H.domains(world, case["kinds"])
+    doms = _doms(case, world)
     out = []
     for asg in itertools.product(*doms):
         sp = case.get("special") or {}
@@ -147,7 +157,7 @@ def run(case, world, caching, times=1, tags=()):
     m = dict(H.labels_of(world))
     for ti, t in enumerate(tags):
         m[id(t)] = f"T{ti}"
-    doms = H.domains(world, case["kinds"])
+    doms = _doms(case, world)
     (enable_caching if caching else disable_caching)()
     try:
         sp = case.get("special") or {}
@@ -159,6 +169,14 @@ def run(case, world, caching, times=1, tags=()):
                 shared_f2 = C.bval(case["f2"], xs)
                 pre = an(entity(xs[case["f2"][1]], shared_f2))
             list(pre.evaluate())        # the expression object has now been evaluated in condition position
+        if case["f2"][0] == "lit" and not case["nested"] and sp.get("kind") != "flatten" and isinstance(case["f2"][1], int):
+            # another rule of the same process gives the same field a constant that is EQUAL for Python but a different value
+            # (True / 1.0 / 2.0 ...): every head keeps its own constant
+            decoy = {1: True, 2: 2.0, 7: 7.0}.get(case["f2"][1])
+            if decoy is not None:
+                with rule_mode():
+                    ds = H.declare(case["kinds"], doms)
+                    infer(entity(V3(f1=ds[0], f2=decoy, f3=ds[-1]), ds[0] == ds[0]))
         with rule_mode():
             if pre is None:
                 xs = H.declare(case["kinds"], doms)
@@ -211,6 +229,8 @@ def check_case(case, ctx):
     nv = len(case["kinds"])
     ctx.cls(f"cls:nvars={nv}")
     ctx.cls("cls:nested" if case["nested"] else "cls:flat")
+    if case.get("empty_domain") is not None:
+        ctx.cls("cls:rule_variable_with_empty_domain")
     ctx.cls("cls:caching_on" if case["caching"] else "cls:caching_off")
     if case["positional"]:
         ctx.cls("cls:positional")
